@@ -8,7 +8,7 @@
 From Coq Require Import List Arith ZArith Bool.
 From Verif Require Import lib.Wire c15.Lts c15.Model c15.Spec c15.Proofs c15.Proofs_Chan c15.Proofs_Loc
   c15.Proofs_List c15.Proofs_Safe c15.Proofs_Init c15.Proofs_Once c15.Proofs_Thm c15.Proofs_Grow
-  c15.Proofs_First c15.Proofs_Wild c15.Proofs_Live.
+  c15.Proofs_First c15.Proofs_Wild c15.Proofs_Live c15.Proofs_Dead.
 Import ListNotations.
 
 (* the checked tie: a label trace accepted by conform_case's search is the
@@ -162,6 +162,27 @@ Theorem c15_reader_progress_partial : forall st sched k e n todo, initial st ->
   enabled (run step st sched) (TEmit k) \/ exists x, stalled_on_full (run step st sched) x.
 Proof. exact reader_progress_l. Qed.
 Print Assumptions c15_reader_progress_partial.
+
+(* GENUINE DEFECT (known_findings/C15.json): the full statement "in no reachable
+   state is every thread blocked while operations are in flight and no consumer
+   or Close can release them" is FALSE of the faithful model; the witness
+   schedule was replayed on the real bus.  withNode / tryDropNode hold
+   basicBus.lk while waiting for n.lk; a multi-type Subscribe that has joined its
+   first node needs basicBus.lk again; an Emit holding n.lk is stalled on the
+   channel of that not-yet-returned subscription. *)
+Theorem c15_no_deadlock_refuted : ~ no_deadlock_full.
+Proof. exact no_deadlock_refuted_l. Qed.
+Print Assumptions c15_no_deadlock_refuted.
+
+Theorem c15_no_deadlock_witness_state :
+  let st := run step dl_init dl_sched in
+  (exists c, nth_error (subs st) 1 = Some c /\ spc c = SBus 1 /\ buf c = [] /\ ccap c = 0 /\ want c = 0) /\
+  (exists e, nth_error (emits st) 1 = Some e /\ epc e = ESend 0 [1]) /\
+  (exists nd, nth_error (nodes st) 0 = Some nd /\ holder nd = Some (TEmit 1)) /\
+  blk st = Some (TEmNew 1) /\
+  step st (TSub 1) = None /\ step st (TEmit 1) = None /\ step st (TEmNew 1) = None.
+Proof. exact dl_state_l. Qed.
+Print Assumptions c15_no_deadlock_witness_state.
 
 (* ---- non-vacuity ------------------------------------------------------------- *)
 (* one stateful emitter of type 0, one typed subscription (buffer 1), events 100
